@@ -32,6 +32,13 @@ def gen_signal(rng, name, nbytes, used, opts):
     """a signal that does not overlap `used` (set of addresses); returns description dict or None"""
     for _ in range(12):
         size = F.rand_size(rng, min(8 * nbytes, opts.get("maxwidth", 64)))
+        force_float = False
+        if opts.get("floats", False) and opts.get("maxwidth", 64) >= 32 and nbytes >= 4 and rng.random() < 0.12:
+            # float32 / float64 are rare among random widths: ask for them explicitly
+            size = 64 if (nbytes >= 8 and rng.random() < 0.5) else 32
+            force_float = True
+        if opts.get("_float64_first"):
+            size, force_float = 64, True
         little = rng.random() < opts.get("p_little", 0.5)
         start = rng.randint(0, 8 * nbytes - size)
         a = set(F.sig_addrs(little, start, size))
@@ -39,7 +46,7 @@ def gen_signal(rng, name, nbytes, used, opts):
             continue
         used |= a
         is_float = False
-        if opts.get("floats", False) and size in (32, 64) and rng.random() < 0.5:
+        if opts.get("floats", False) and size in (32, 64) and (force_float or rng.random() < 0.5):
             is_float = True
         signed = (rng.random() < 0.4) and not is_float
         factor = rng.choice(opts.get("factors", FACTORS))
@@ -66,7 +73,12 @@ def gen_frame(rng, name, arbid, ext, opts):
          "comment": rng.choice([None, "frame comment"]) if opts.get("comments", True) else None, "fd": False, "j1939": False, "signals": sigs, "cycle": 0}
     if nbytes > 8:
         f["fd"] = True
-    if opts.get("mux", True) and rng.random() < opts.get("p_mux", 0.3):
+    if opts.get("floats", False) and nbytes >= 8 and rng.random() < 0.12:
+        # a float64 needs eight whole bytes of the frame: place it before anything else
+        s64 = gen_signal(rng, "dbl", nbytes, used, dict(opts, _float64_first=True))
+        if s64:
+            sigs.append(s64)
+    elif opts.get("mux", True) and rng.random() < opts.get("p_mux", 0.3):
         w = rng.randint(1, 4)
         mx = None
         for _ in range(10):
